@@ -125,6 +125,8 @@ struct ZEx<const N: usize> {
     panicked: bool,
     /// a clone panic is planned for this step / has fired in it
     bomb: bool,
+    /// a drain was leaked earlier in this run
+    forgot: bool,
     user_faulted: bool,
     /// elements leaked by a forgotten drain (allowed by C10)
     leaked: u64,
@@ -146,6 +148,7 @@ fn run_n<const N: usize>(script: &Script, keep: bool) -> Outcome {
         allocs: 0,
         panicked: false,
         bomb: false,
+        forgot: false,
         user_faulted: false,
         leaked: 0,
     };
@@ -236,7 +239,9 @@ impl<const N: usize> ZEx<N> {
                         Op::Iter | Op::Range | Op::IterMut | Op::RangeMut => cls::ITER,
                         _ => cls::RET,
                     };
-                    self.fail(cls::ZST | cls::PANIC_SPEC | own, format!("{} panicked at capacity {N}: {m}", self.cur_op.name()));
+                    // C10: after a leaked drain the buffer "behaves normally"
+                    let fam = if self.forgot { cls::FORGET } else { 0 };
+                    self.fail(cls::ZST | cls::PANIC_SPEC | own | fam, format!("{} panicked at capacity {N}: {m}", self.cur_op.name()));
                 }
                 None
             }
@@ -428,6 +433,11 @@ impl<const N: usize> ZEx<N> {
                             // leaked drain (C10): the buffer may have lost anything, but it must not
                             // claim more elements than still exist
                             self.stats.forgets += 1;
+                            self.forgot = true;
+                            let (fstart, fsize) = b.verif_layout();
+                            if fsize > N || fstart >= N {
+                                self.fail(cls::FORGET | cls::ZST, format!("after leaking the drain the buffer is corrupt: front position {fstart}, length {fsize}, capacity {N}"));
+                            }
                             let obs = b.len();
                             self.len[x] = obs;
                             let live = CREATED.with(|c| c.get()).saturating_sub(DESTROYED.with(|c| c.get()) + self.leaked);
